@@ -107,6 +107,7 @@ def unpack(job, r):
     inits = []
     for x in res:
         inits += lc.init_failures(x)
+        inits += lc.edit_failures(x)
     poll = None
     if "poll" in byc:
         i0 = [i for i, c in enumerate(job["calls"]) if c["call"] == "poll"][0]
@@ -404,6 +405,11 @@ def run(ctx):
         if i % 25 == 12:
             kw = {"nearmiss": True}
             option = ["euler", "tauleap"][(i // 25) % 2]
+        if i % 25 in (3, 16, 22):
+            kw = dict(kw, refused_edits=True)          # a refused assignment (caught) precedes the run
+        if i % 25 in (5, 18):
+            kw = dict(kw, tsample_after=True)          # default t_max, request list assigned after construction
+            option = ["euler", "tauleap"][(i // 25) % 2]
         jobs.append(make_job(rng, "s%d" % i, option, policy=policy, max_steps=max_steps, **kw))
     res = lc.run_jobs(jobs, kind="plain", chunk=ctx.n(10, 60), parallel=ctx.n(6, 8), stall=ctx.n(15, 40))
     ops, metas = [], []
@@ -417,6 +423,10 @@ def run(ctx):
         ctx.count("tmax_explicit" if info["explicit_tmax"] else "tmax_default")
         if info["samples"] or info["pre_sample"]:
             ctx.count("with_explicit_samples")
+        if info.get("refused_edits"):
+            ctx.count("run_after_refused_assignment")
+        if info.get("tsample_after"):
+            ctx.count("t_sample_assigned_after_construction")
         if info.get("huge_ratio"):
             ctx.count("interval_ratio_beyond_2^31_%s" % info["space"])
         if info.get("poll_k"):
